@@ -62,6 +62,10 @@ CHECKS = {
    text="All client request sequences to a depth, in binary and text protocol, are executed on twin two-node clusters of real node copies (leader + synced follower): directly against the leader and through the follower's port; replies and resulting states must agree; with the replication stream held the follower's own state must not change; forced non-leader states without a leader must refuse everything.",
    note="Trusted: instrumenter+runtime+vnet, one copy of package server per node (own globals). Default schedule inside handlers.",
    technique="bounded exhaustive enumeration of request sequences on multi-node instances of the implementation, differential oracle leader vs follower port"),
+ "C09": dict(level="fault_enumeration", design="4/C09",
+   text="For several workloads on a real leader+follower pair the leader->follower replication stream is cut after every byte offset (file-transfer and live phases, rotation, tiny ring buffer), with the follower's own reconnect logic running on virtual time, plus double cuts on a grid; at leader quiescence the follower's holds must equal the leader's.",
+   note="Trusted: instrumenter+runtime+vnet cut semantics (bytes beyond the cut dropped, both ends see the break), default schedule inside handlers.",
+   technique="exhaustive fault-position enumeration (connection cut at every stream offset) on multi-node instances of the implementation, convergence oracle"),
 }
 NA_DEFAULT = "check not built yet in this round (planned: see DESIGN.md section 4)"
 
